@@ -206,7 +206,11 @@ def abnormal(res):
 def abnormal_sig(res):
     if "panic" in res:
         where = res.get("where", "")
-        fname = where.rsplit(":", 1)[0].replace("/repo/", "")
+        fname = where.rsplit(":", 1)[0]
+        # repository-relative path, wherever the tree is checked out
+        k = fname.find("src/")
+        if k > 0 and "/.cargo/" not in fname:
+            fname = fname[k:]
         msg = res["panic"]
         # numbers vary with heap layout: keep the message skeleton only
         import re
